@@ -241,14 +241,25 @@ def check_seed_real(item, acc):
     for rep in range(2):
         np.random.seed(rep)  # perturb the global state: it must play no role
         sp = HyMMSBMSampler(u=u * 3, w=w * 3, max_hye_size=3, burn_in_steps=3, intermediate_steps=2, seed=seed)
-        kw = {} if mode == "model" else dict(deg_seq=np.array([2.0, 2.0, 1.0, 1.0] + [0.0] * (N - 4)), dim_seq={2: 3})
-        g = sp.sample(**kw)
-        seqs.append([hg_edges(next(g)) for _ in range(3)])
+        deg = np.array([2.0, 2.0, 1.0, 1.0] + [0.0] * (N - 4))
+        kw = {"model": {}, "sequences": dict(deg_seq=deg, dim_seq={2: 3}),
+              # the model's parameters are rescaled first (to an average degree / to the given sequence), the rest is drawn from it
+              "rescaled-avg": dict(avg_deg=4.0, allow_rescaling=True), "rescaled-deg": dict(deg_seq=deg, allow_rescaling=True),
+              "rescaled-dim": dict(dim_seq={2: 2, 3: 1}, allow_rescaling=True), "deg-only": dict(deg_seq=deg), "dim-only": dict(dim_seq={2: 2, 3: 1})}[mode]
+        try:
+            g = sp.sample(**kw)
+            seqs.append([hg_edges(next(g)) for _ in range(3)])
+        except Exception as e:
+            # e.g. fewer than two hyperedges were drawn and the chain cannot move (outside the domain): for the seed clause the two
+            # runs only have to agree, also on that
+            seqs.append(("EXC", type(e).__name__, str(e)[:80]))
     if seqs[0] != seqs[1]:
         acc.violations.append(Violation("seed/%s/not-reproducible" % mode, "seed %r (N=%d, %s): first run %r, second run %r" % (seed, N, mode, seqs[0], seqs[1]),
                                         {"mode": "seed-real", "N": N, "seed": seed, "how": mode}, 1))
-    else:
+    elif not isinstance(seqs[0], tuple):
         acc.nontrivial.add(hash(("seed", N, seed, mode)))
+    else:
+        acc.count("seed-runs-ending-in-the-same-exception")
 
 
 def items(tier):
@@ -315,6 +326,8 @@ def items(tier):
         for seed in (0, 1, 2):
             yield ("seed", (N, seed, "model"))
             yield ("seed", (N, seed, "sequences"))
+            for mode in ("rescaled-avg", "rescaled-deg", "rescaled-dim", "deg-only", "dim-only"):
+                yield ("seed", (N, seed, mode))
 
 
 def worker(part, acc):
